@@ -395,12 +395,33 @@ def input_names(cfg: Config):
     return names
 
 
-def do_call(ex, prog, ep, cfg: Config):
+def do_calls(ex, prog, ep, cfg: Config, k: int):
+    """The same call k times on one client (independent sink outcomes); returns the list of per-call results,
+    each with the slice of the event log it produced."""
+    out = []
+    ccell = None
+    for i in range(k):
+        e0 = len(ex.events)
+        status, payload = 'ok', None
+        try:
+            r = do_call(ex, prog, ep, cfg, ccell)
+            ccell = r[2]
+        except Unwinding as u:
+            status, r = 'panic', u.payload
+        out.append((status, r, e0, len(ex.events)))
+        if status != 'ok':
+            break
+    return out
+
+
+def do_call(ex, prog, ep, cfg: Config, ccell=None):
     """Run one metric call; returns (result value | None for quiet, spec, client cell)."""
     tr, vty, meth, code, mty = ep
     ex.out['generic_T'] = mty
-    client = build_client(ex, prog, cfg)
-    ccell = Cell(client, 'client')
+    if ccell is None:
+        client = build_client(ex, prog, cfg)
+        ccell = Cell(client, 'client')
+    client = ccell.v
     cref = Ref(ccell, (), False)
     key = atom('key')
     snapshot = client
@@ -577,14 +598,17 @@ def error_kind(ex, prog, e):
 
 
 class CallChecker:
-    def __init__(self, ex, prog, ep, cfg, findings, counters):
+    def __init__(self, ex, prog, ep, cfg, findings, counters, events=None, call_index=0, repeat=1):
         self.ex, self.prog, self.ep, self.cfg, self.findings, self.counters = ex, prog, ep, cfg, findings, counters
+        self.events = events
+        self.call_index, self.repeat = call_index, repeat
 
     def fail(self, prop, clause, detail, neg=None):
         ex = self.ex
         self.findings.append({'prop': prop, 'clause': clause, 'detail': detail, 'neg': neg if neg is not None else z3.BoolVal(True),
                               'pc': list(ex.assumptions) + list(ex.pc), 'ep': self.ep, 'cfg': self.cfg,
                               'events': [e[:3] for e in ex.events], 'full_events': list(ex.events),
+                              'call_index': self.call_index, 'repeat': self.repeat,
                               'streq': dict(getattr(ex, 'streq_vars', {}))})
 
     def oblige(self, prop, clause, cond, detail):
@@ -633,8 +657,12 @@ class CallChecker:
             return
         res, spec, ccell, snapshot = result
         ref, valid = ref_pieces(cfg, code, spec, timer=(tr == 'Timed'))
-        emits = [e for e in ex.events if e[0] == 'emit']
-        handlers = [e for e in ex.events if e[0] == 'handler']
+        evs = self.events if self.events is not None else ex.events
+        emits = [e for e in evs if e[0] == 'emit']
+        handlers = [e for e in evs if e[0] == 'handler']
+        writes = [e for e in evs if e[0] == 'atomic' and e[1] not in ('load', 'cas-fail')]
+        if writes:
+            ex.out['stateful_client'] = True
         quiet = cfg.form == 'quiet'
         # frame condition: a call does not modify the client
         self.oblige('C03', 'client-unchanged', ccell.v is snapshot or ccell.v == snapshot, 'the call modified the client')
